@@ -67,7 +67,17 @@ def task_average(pr, repo, nconf):
                         allg[(gi, c)] = g
                 confs[c] = record('conf' + c, CCls, groups=gs, parameters=None, non_covalently_coupled_groups=False, chains=['A'])
             mol = record('mol', repo.cls(MC), conformation_names=list(names), conformations=confs)
+            # coupling marks differ between conformations: only the groups of the LAST conformation are marked coupled
+            for (gi, c), g in allg.items():
+                if c == names[-1]:
+                    g.attrs['non_covalently_coupled_groups'].append(partner)
+            marks_before = {k: list(g.attrs['non_covalently_coupled_groups']) for k, g in allg.items()}
             ex.call_function(fi, [], self_obj=mol)
+            ctx.oblige('AV%s: the conformations keep their own coupling marks (a group that is coupled only in a later conformation '
+                       'does not become coupled in an earlier one)' % (pat,),
+                       all(len(g.attrs['non_covalently_coupled_groups']) == len(marks_before[k])
+                           and all(x is y for x, y in zip(g.attrs['non_covalently_coupled_groups'], marks_before[k]))
+                           for k, g in allg.items()))
             avr = confs.get('AVR')
             if not isinstance(avr, Obj):
                 ctx.oblige('AV%s: an AVR conformation is stored' % (pat,), False)
@@ -138,7 +148,12 @@ def task_average_twins(pr, repo):
                     allg[(gi, c)] = g
                 confs[c] = record('conf' + c, CCls, groups=gs, parameters=None, non_covalently_coupled_groups=False, chains=['A'])
             mol = record('mol', repo.cls(MC), conformation_names=list(names), conformations=confs)
-            ex.call_function(fi, [], self_obj=mol)
+            from pyvc.values import PyRaise
+            try:
+                ex.call_function(fi, [], self_obj=mol)
+            except PyRaise as e:
+                ctx.oblige('AVT[%s]: the average is computed (it raises %s: %s)' % (kind, e.exc_name, str(e.msg)[:80]), False)
+                return
             avr = confs.get('AVR')
             ag = avr.attrs['groups'] if isinstance(avr, Obj) else []
             ctx.oblige('AVT[%s]: two distinct groups per conformation => two averaged groups are reported' % kind, len(ag) == 2)
